@@ -144,6 +144,30 @@ func TestVerifC18(t *testing.T) {
 			run(class, c18In{d.String(), j == 0})
 		}
 	}
+	// keys whose PUBLIC coordinates have leading zero bytes (about 1 in 128 keys): found by search
+	// from a seed-dependent start, so that address derivation from short coordinates is exercised
+	{
+		wantX, wantY := 3, 3
+		if e.Tier == "thorough" {
+			wantX, wantY = 20, 20
+		}
+		start := new(big.Int).SetUint64(e.rng.Uint64())
+		start.Lsh(start, 130)
+		for i := int64(1); (wantX > 0 || wantY > 0) && i < 200000; i++ {
+			d := new(big.Int).Add(start, big.NewInt(i))
+			x, y := crypto.S256().ScalarBaseMult(d.Bytes())
+			zx, zy := len(x.Bytes()) < 32, len(y.Bytes()) < 32
+			if (zx && wantX > 0) || (zy && wantY > 0) {
+				if zx {
+					wantX--
+				}
+				if zy {
+					wantY--
+				}
+				run("pub-leading-zero", c18In{d.String(), wantX+wantY == 0})
+			}
+		}
+	}
 	// exact powers of 256 and their predecessors (boundary of each byte length)
 	for k := 1; k <= 31; k++ {
 		p := new(big.Int).Lsh(one, uint(8*k))
